@@ -15,6 +15,6 @@ CONFIG = {
                     "address translators of a custom runner are mutually inverse on live listeners (identity for the built-in runner); not modelled",
                     "window_success is proved for accept/dial issued from a state with Run idle and nothing on the wire, the five events consecutive"],
     "timeout": {"quick": 600, "thorough": 3000},
-    "level_text": "Lean theorems over the non-multiplexed GRPCBroker transition system (Model/GrpcBroker.lean) for every finite history, any number of ids, every interleaving of Run, the expiry goroutines and the diallers: Dial(n) only ever dials the address of a listener created by an Accept(n) (dial_reaches_accepted_listener), conn-info parked for n sits in n's slot and names a listener accepted for n, accept-then-dial and dial-then-accept both connect to exactly the new listener (window_success), an unmatched dial's timer arm is enabled at its deadline; witness theorems show that filing conn-info under the wrong map or ignoring the received address breaks the property. Facts (which map Run files under, where Dial takes its address from, channel capacity, the 5 s windows) are re-extracted from grpc_broker.go each run; ~30 timed histories per run on real gRPC pairs in both directions are compared dial by dial with the model's timed run, routing checked by the answering server's id. Also: Run never blocks on a full slot and getClientStream is one critical section (run_never_blocked; witnesses), concurrent dials never share their per-id dialer (dial_reaches_own_id; fact: dialGRPCConn never writes into the caller's option slice; every dial of a run passes one shared slice), and every waiting Dial is due at most dialWindow = 5000 ms from now with its timeout step enabled once due (dial_due_within_window). Fifth round: ids_distinct for GRPCBroker.NextId (Model/IdAlloc.lean, cell C07.ids); the two directions' ID spaces are independent (fact acceptLeavesDialState; accept_leaves_dial_state, accept_clears_witness; histories with the same number in flight in both directions, case lines carry the other direction as peer=). Sixth round: C07.early-accept — a real gRPC plugin accepts IDs while its server is being initialised, the host attaches 2 s later and dials each ID.",
+    "level_text": "Lean theorems over the non-multiplexed GRPCBroker transition system (Model/GrpcBroker.lean) for every finite history, any number of ids, every interleaving of Run, the expiry goroutines and the diallers: Dial(n) only ever dials the address of a listener created by an Accept(n) (dial_reaches_accepted_listener), conn-info parked for n sits in n's slot and names a listener accepted for n, accept-then-dial and dial-then-accept both connect to exactly the new listener (window_success), an unmatched dial's timer arm is enabled at its deadline; witness theorems show that filing conn-info under the wrong map or ignoring the received address breaks the property. Facts (which map Run files under, where Dial takes its address from, channel capacity, the 5 s windows) are re-extracted from grpc_broker.go each run; ~30 timed histories per run on real gRPC pairs in both directions are compared dial by dial with the model's timed run, routing checked by the answering server's id. Also: Run never blocks on a full slot and getClientStream is one critical section (run_never_blocked; witnesses), concurrent dials never share their per-id dialer (dial_reaches_own_id; fact: dialGRPCConn never writes into the caller's option slice; every dial of a run passes one shared slice), and every waiting Dial is due at most dialWindow = 5000 ms from now with its timeout step enabled once due (dial_due_within_window). Fifth round: ids_distinct for GRPCBroker.NextId (Model/IdAlloc.lean, cell C07.ids); the two directions' ID spaces are independent (fact acceptLeavesDialState; accept_leaves_dial_state, accept_clears_witness; histories with the same number in flight in both directions, case lines carry the other direction as peer=). Sixth round: C07.early-accept — a real gRPC plugin accepts IDs while its server is being initialised, the host attaches 2 s later and dials each ID. Eighth round: the host's brokered listeners live in the directory the client created for a custom runner (Hygiene.brokerSharesSocketDir; host_broker_uses_client_dir), one slot per id (slotLookupAtomic).",
     "level_note": "Full strength on the model for routing (all histories). window_success from a quiescent state only (frame lemma over other ids' events not formalised; exercised by the correspondence run). One direction per model instance; the two directions use separate message streams and maps. gRPC transport and address translation assumed. TLS is C12.",
 }
